@@ -8,7 +8,7 @@ from harness.props import c03, c04
 
 ID = "C06"
 ENTRY = "arr[key] / take / copy / DataFrame ops, then termfreqs / score / positions / doclengths"
-LEVEL = "other"
+LEVEL = "proof"
 RULE = ("corpora x chains (depth 1..3) of keys: slices with every sign of step incl. empty results, boolean masks, "
         "integer arrays sorted / unsorted / with duplicates / negative, take, copy, DataFrame sort_values / iloc / "
         "boolean filter / sample; under avoid_copies True and False; queries: term tf (with and without a position "
